@@ -14,6 +14,9 @@ Kinds == <<"divzero", "oob", "panic", "unwrap">>
 Places == <<"plain", "if", "while", "for", "else">>
 Layouts == <<"onefile", "callee-in-m1", "chain-m1-m2", "back-and-forth">>
 Hops == <<"none", "lambda">>
+Pads == <<0, 9, 18, 27, 36, 45, 54, 63, 72, 81>>     \* length of a leading comment line in the callee files (0 = none):
+                                                     \* sweeps the byte offsets of the callees past the callers' lines
+Styles == <<"block", "expr">>      \* `fn f(..) { .. }` with padding statements, or `fn f(..) -> int = expr` on one line
 
 FailS(kd) ==
   CASE kd = "divzero" -> Let("bad", Bin("/", I(10), Bin("-", V("n"), V("n"))))
@@ -34,13 +37,22 @@ FName(k) == "level" \o ToString(k)
 UsesLambda(k, hop) == hop = "lambda" /\ k = 1
 CallExpr(k, hop) == IF UsesLambda(k, hop) THEN Call("go", <<Bin("+", V("n"), I(1))>>)
                     ELSE Bin("+", Call(FName(k + 1), <<Bin("+", V("n"), I(1))>>), I(1))
-FnK(k, depth, kd, pl, hop) ==
+FailE(kd) ==
+  CASE kd = "divzero" -> Bin("/", I(10), Bin("-", V("n"), V("n")))
+    [] kd = "oob"     -> Idx(Arr(<<I(1), I(2)>>), Bin("+", V("n"), I(5)))
+    [] kd = "panic"   -> [k |-> "panic", e |-> Bin("..", S("boom "), V("n"))]
+    [] kd = "unwrap"  -> [k |-> "unwrap", e |-> Call("nothing", <<V("n")>>)]
+FnKExpr(k, depth, kd) ==
+  Fn(FName(k), <<Par("n", "int")>>, "int",
+     <<ExprS(IF k = depth THEN FailE(kd) ELSE Bin("+", Call(FName(k + 1), <<Bin("+", V("n"), I(1))>>), I(1)))>>) @@ [style |-> "expr"]
+FnKBlock(k, depth, kd, pl, hop) ==
   Fn(FName(k), <<Par("n", "int")>>, "int",
      <<PrintS(Bin("..", S("enter " \o FName(k) \o " "), V("n")))>> \o
      (IF k = depth THEN Place(pl, FailS(kd)) \o <<ExprS(V("n"))>>
       ELSE <<Var("r", I(0))>> \o
            (IF UsesLambda(k, hop) THEN <<Let("go", Lam(<<"v">>, <<"int">>, Bin("+", Call(FName(k + 1), <<V("v")>>), I(1))))>> ELSE <<>>) \o
            Place(IF k % 2 = 1 THEN pl ELSE "plain", Assign(V("r"), "=", CallExpr(k, hop))) \o <<ExprS(V("r"))>>))
+FnK(k, depth, kd, pl, hop, sty) == IF sty = "expr" THEN FnKExpr(k, depth, kd) ELSE FnKBlock(k, depth, kd, pl, hop)
 Nothing == Fn("nothing", <<Par("n", "int")>>, "option<int>", <<If(Bin(">", V("n"), I(1000)), <<[k |-> "ret", e |-> Some(V("n"))]>>, <<>>), ExprS(None)>>)
 
 \* which file holds function k
@@ -49,29 +61,39 @@ FileOf(k, lay) ==
     [] lay = "callee-in-m1" -> IF k = 1 THEN "main.abra" ELSE "m1.abra"
     [] lay = "chain-m1-m2" -> IF k = 1 THEN "main.abra" ELSE IF k = 2 THEN "m1.abra" ELSE "m2.abra"
     [] lay = "back-and-forth" -> IF k = 2 THEN "m1.abra" ELSE IF k = 3 THEN "m2.abra" ELSE "main.abra"
-FnsIn(file, depth, kd, pl, hop, lay) ==
+FnsIn(file, depth, kd, pl, hop, lay, sty) ==
   LET ks == {k \in 1..depth : FileOf(k, lay) = file} IN
-  [i \in 1..Cardinality(ks) |-> FnK(CHOOSE k \in ks : Cardinality({j \in ks : j < k}) = i - 1, depth, kd, pl, hop)]
-Prog(depth, kd, pl, hop, lay) ==
-  LET m1 == FnsIn("m1.abra", depth, kd, pl, hop, lay)
-      m2 == FnsIn("m2.abra", depth, kd, pl, hop, lay)
+  [i \in 1..Cardinality(ks) |-> FnK(CHOOSE k \in ks : Cardinality({j \in ks : j < k}) = i - 1, depth, kd, pl, hop, sty)]
+RECURSIVE Xs(_)
+Xs(n) == IF n = 0 THEN "" ELSE "x" \o Xs(n - 1)
+Header(pad) == IF pad = 0 THEN <<>> ELSE <<"// " \o Xs(pad - 3)>>
+Prog(depth, kd, pl, hop, lay, sty, pad, quiet) ==
+  LET m1 == FnsIn("m1.abra", depth, kd, pl, hop, lay, sty)
+      m2 == FnsIn("m2.abra", depth, kd, pl, hop, lay, sty)
       usesMain == (IF m1 # <<>> THEN <<"m1">> ELSE <<>>) \o (IF m2 # <<>> THEN <<"m2">> ELSE <<>>) \o <<"helpers">>
   IN [files |-> <<[name |-> "main.abra", uses |-> usesMain, types |-> <<>>,
-                   fns |-> FnsIn("main.abra", depth, kd, pl, hop, lay),
-                   main |-> <<PrintS(S("start")), Let("res", Call(FName(1), <<I(3)>>)), PrintS(V("res"))>>]>>
-               \o (IF m1 # <<>> THEN <<[name |-> "m1.abra", uses |-> (IF m2 # <<>> THEN <<"m2">> ELSE <<>>) \o <<"helpers">>, types |-> <<>>, fns |-> m1, main |-> <<>>]>> ELSE <<>>)
-               \o (IF m2 # <<>> THEN <<[name |-> "m2.abra", uses |-> <<"helpers">>, types |-> <<>>, fns |-> m2, main |-> <<>>]>> ELSE <<>>)
+                   fns |-> FnsIn("main.abra", depth, kd, pl, hop, lay, sty),
+                   \* quiet: nothing but the call, so that no library function is compiled between the user's functions
+                   main |-> IF quiet THEN <<Let("res", Call(FName(1), <<I(3)>>))>>
+                            ELSE <<PrintS(S("start")), Let("res", Call(FName(1), <<I(3)>>)), PrintS(V("res"))>>]>>
+               \o (IF m1 # <<>> THEN <<[name |-> "m1.abra", header |-> Header(pad), uses |-> (IF m2 # <<>> THEN <<"m2">> ELSE <<>>) \o <<"helpers">>, types |-> <<>>, fns |-> m1, main |-> <<>>]>> ELSE <<>>)
+               \o (IF m2 # <<>> THEN <<[name |-> "m2.abra", header |-> Header(pad), uses |-> <<"helpers">>, types |-> <<>>, fns |-> m2, main |-> <<>>]>> ELSE <<>>)
                \o <<[name |-> "helpers.abra", uses |-> <<>>, types |-> <<>>, fns |-> <<Nothing>>, main |-> <<>>]>>]
 
-VARIABLES di, ki, pi, li, hi
+VARIABLES di, ki, pi, li, hi, si, qi, quiet
 Init == di \in 1..Len(Depths) /\ ki \in 1..Len(Kinds) /\ pi \in 1..Len(Places) /\ li \in 1..Len(Layouts) /\ hi \in 1..Len(Hops)
-Next == FALSE /\ UNCHANGED <<di, ki, pi, li, hi>>
+        /\ si \in 1..Len(Styles) /\ qi \in 1..Len(Pads) /\ quiet \in BOOLEAN
+Next == FALSE /\ UNCHANGED <<di, ki, pi, li, hi, si, qi, quiet>>
 Sensible == /\ (Hops[hi] = "lambda" => Depths[di] >= 2)
             /\ (Layouts[li] = "chain-m1-m2" => Depths[di] >= 3) /\ (Layouts[li] = "back-and-forth" => Depths[di] >= 3)
             /\ (Layouts[li] = "callee-in-m1" => Depths[di] >= 2)
+            /\ (Styles[si] = "expr" => Places[pi] = "plain" /\ Hops[hi] = "none")
+            /\ (quiet => Styles[si] = "expr" /\ Kinds[ki] \in {"divzero", "oob"})
+            \* the offset sweep is done for the multi-file layouts with three levels
+            /\ (Pads[qi] # 0 => Depths[di] = 3 /\ Layouts[li] \in {"chain-m1-m2", "back-and-forth"} /\ Places[pi] = "plain" /\ Hops[hi] = "none")
 Emit == Sensible =>
-  LET L == Layout(Prog(Depths[di], Kinds[ki], Places[pi], Hops[hi], Layouts[li]))
+  LET L == Layout(Prog(Depths[di], Kinds[ki], Places[pi], Hops[hi], Layouts[li], Styles[si], Pads[qi], quiet))
       r == Run(L.sem, 500)
-      id == "d" \o ToString(Depths[di]) \o "_" \o Kinds[ki] \o "_" \o Places[pi] \o "_" \o Layouts[li] \o "_" \o Hops[hi]
+      id == "d" \o ToString(Depths[di]) \o "_" \o Kinds[ki] \o "_" \o Places[pi] \o "_" \o Layouts[li] \o "_" \o Hops[hi] \o "_" \o Styles[si] \o "_p" \o ToString(Pads[qi]) \o (IF quiet THEN "_quiet" ELSE "")
   IN PrintT(<<"CASE", ToJson(RunCase(id, L, r) @@ [kind |-> Kinds[ki], place |-> Places[pi], layout |-> Layouts[li], hop |-> Hops[hi]])>>)
 =============================================================================
